@@ -858,12 +858,9 @@ class IkeSa(object):
                                proposal=chosen_child_proposal, tsi=chosen_tsr, tsr=chosen_tsi, mode=requested_mode,
                                lifetime=ipsec_conf.lifetime, original_proposal=ipsec_conf.proposal)
 
-            try:
-                xfrm.Xfrm.create_child_sa(self, child_sa, child_sa_keyring, is_initiator=False)
-            except xfrm.NetlinkError:
-                # the kernel refused one of the two SAs: do not leave the other one installed nor track the CHILD_SA
-                xfrm.Xfrm.delete_child_sa(self, child_sa)
-                raise
+            # if the kernel refuses one of the two SAs nothing stays installed (see create_child_sa) and the CHILD_SA is not
+            # tracked. SAs that were already there (the refusal may be about a SPI that another CHILD_SA owns) are not touched
+            xfrm.Xfrm.create_child_sa(self, child_sa, child_sa_keyring, is_initiator=False)
             self.child_sas.append(child_sa)
             self.log_info('Created CHILD_SA {} with lifetime = {}'.format(child_sa, child_sa.lifetime))
 
